@@ -471,7 +471,7 @@ func c17Determinism(c *Ctx, m *Module) {
 							continue
 						}
 						if !appendSortedBeforeReturn(fn, cl) {
-							bad = "append to " + shortDesc(describe(argsOf(cl)[0])) + " is not followed by a sort"
+							bad = "append to " + shortDesc(describeArg(cl, 0)) + " is not followed by a sort"
 						}
 					}
 					if _, ok := in.(*ssa.Return); ok {
